@@ -118,6 +118,12 @@ def points(tier: str) -> List[Dict[str, Any]]:
                             "arrive": ({"srv": arr} if st_srv != "fresh" else {}) | {"aaaa": "never"}, "forced": None,
                             "extra": True})
     pts += [dict(q, names="sharp") for q in pts[::9]]
+    # the same lookups through the convenience entry points of Zeroconf and AsyncZeroconf (every 11th point, and every point
+    # with a forced question type and nothing cached)
+    base = [q for q in pts if not any(k in q for k in ("prior", "bundle", "reuse", "knows_host", "names", "dying_ms"))]
+    forced_cold = [q for q in base if q["forced"] and all(v == "absent" for v in q["cache"].values()) and q["timeout"] == 3000]
+    for api in ("zc", "azc"):
+        pts += [dict(q, api=api) for q in base[::11]] + [dict(q, api=api) for q in forced_cold[::3]]
     return pts
 
 
@@ -226,8 +232,19 @@ def _run_point(p: Dict[str, Any], verbose: bool = False) -> Tuple[Optional[Dict[
         info = AsyncServiceInfo(TYPE, NAME)
         done: Dict[str, Any] = {}
 
+        api = p.get("api", "request")
+
         async def go() -> None:
-            done["result"] = await info.async_request(zc, timeout, forced)
+            nonlocal info
+            if api == "request":
+                done["result"] = await info.async_request(zc, timeout, forced)
+            else:
+                # the convenience entry points build the object themselves and return it, or None
+                owner = zc if api == "zc" else host.azc
+                got = await owner.async_get_service_info(TYPE, NAME, timeout, forced)
+                done["result"] = got is not None
+                if got is not None:
+                    info = got
             done["t"] = w.now_ms
 
         n_before = len(w.net.trace)
